@@ -258,6 +258,9 @@ func c05QRFormat(r *fw.Rec, s *qrSym, sample int) bool {
 				m[a[k][1]][a[k][0]] = !m[a[k][1]][a[k][0]]
 			}
 			other := randSubset(rng, 15, 3)
+			if rng.Intn(3) == 0 {
+				other = sub // the same damage in both copies
+			}
 			for _, k := range other {
 				m[b[k][1]][b[k][0]] = !m[b[k][1]][b[k][0]]
 			}
@@ -292,6 +295,9 @@ func c05QRVersion(r *fw.Rec, s *qrSym, sample int) bool {
 				m[a[k][1]][a[k][0]] = !m[a[k][1]][a[k][0]]
 			}
 			other := randSubset(rng, 18, 3)
+			if rng.Intn(3) == 0 {
+				other = sub // the same damage in both copies
+			}
 			for _, k := range other {
 				m[b[k][1]][b[k][0]] = !m[b[k][1]][b[k][0]]
 			}
